@@ -19,7 +19,7 @@ func C13(r *core.Run) {
 		"(R13.2) IsLatest is the identity test of the listed version with the object's current version; (R09.1n) the version iterator's nilable fields are guarded; " +
 		"(R13.4) the handler substitutes 'null' for empty version ids on every entry and the backend masks ids only while the bucket was never versioned; " +
 		"(R13.5) every appended entry passes the page counter and its bound test before the next one; (R13.6) the marker-combination guards precede the backend call; " +
-		"(R13.7) listed Size/ETag/Key come from the listed version itself and delete markers are listed as such. (R05.7) a delete marker that becomes current has a generated id, so a page ending on it can be continued. (R05.5, shared) every stored version carries a fresh, non-empty id from the generator: the id is the page marker of version listings."
+		"(R13.7) listed Size/ETag/Key come from the listed version itself and delete markers are listed as such. (R05.7) a delete marker that becomes current has a generated id, so a page ending on it can be continued. (R05.5, shared) every stored version carries a fresh, non-empty id from the generator: the id is the page marker of version listings. (paging elements) the continuation markers are serialised under the element names the protocol defines."
 	r.NotDecided = "exactly-once across pages, order of versions inside a key, prefix grouping semantics (Prefix.Match), that the markers returned make the next page start at the right entry"
 	ctx := oblig.NewCtx(r.P)
 	installNonNilHook(r, ctx)
@@ -38,6 +38,7 @@ func C13(r *core.Run) {
 	rule135(r, ctx, fn)
 	rule057(r)
 	rule055(r)
+	rulePagingElements(r, "R13.9", "ListBucketVersionsResult")
 	rule136(r)
 	rule137(r, fn)
 	rule138(r, fn)
